@@ -13,14 +13,19 @@ try:
         rc = os.path.join(d, ".coveragerc")
         open(rc, "w").write("[run]\nbranch = True\nparallel = True\nconcurrency = multiprocessing\nsource = %s/ural\ndata_file = %s/.coverage\nsigterm = True\n" % (src, d))
         env = dict(os.environ, COVERAGE_RCFILE=rc, PYTHONPATH="%s:/verif" % src)
-        subprocess.run(["/venv/bin/python", "-m", "coverage", "run", "-m", "bcheck.c%s" % pid[1:], "--tier", "quick", "--out", os.path.join(d, "out.json")],
-                       cwd="/verif", env=env, stdout=subprocess.DEVNULL, stderr=subprocess.DEVNULL)
+        tier = os.environ.get("COV_TIER", "quick")
+        for _ in range(2 if tier == "quick" else 1):   # pool workers killed before they flush lose their data: two runs, the union is reported
+          try:
+            subprocess.run(["/venv/bin/python", "-m", "coverage", "run", "-m", "bcheck.c%s" % pid[1:], "--tier", tier, "--out", os.path.join(d, "out.json")],
+                           cwd="/verif", env=env, stdout=subprocess.DEVNULL, stderr=subprocess.DEVNULL, timeout=900)
+          except subprocess.TimeoutExpired:
+            print("   (a run of %s timed out under coverage: numbers below are a lower bound)" % pid, flush=True)
         subprocess.run(["/venv/bin/python", "-m", "coverage", "combine", "-q"], cwd=d, env=env, stdout=subprocess.DEVNULL, stderr=subprocess.DEVNULL)
         files = [os.path.join(src, f) for f in props[pid]["anchors"]["files"] if not f.endswith(("data.py", "tld_data.py"))]
         r = subprocess.run(["/venv/bin/python", "-m", "coverage", "report", "-m", "--include=" + ",".join(files)], cwd=d, env=env, capture_output=True, text=True)
-        print("=== %s" % pid)
+        print("=== %s" % pid, flush=True)
         for line in r.stdout.split("\n"):
             if line.startswith(src):
-                print("   " + line.replace(src + "/", ""))
+                print("   " + line.replace(src + "/", ""), flush=True)
 finally:
     shutil.rmtree(work, ignore_errors=True)
